@@ -43,12 +43,12 @@ def parse_frames(b):
 # ---------------------------------------------------------------- implementation drivers
 def impl_feed(u, chunk, bound=None):
     """feed one chunk and iterate to exhaustion. returns (frames, restlen, err)"""
-    u.feed(chunk)
     frames = []
     err = 'none'
-    cap = (len(u.buf) // 5 + 3) if bound is None else bound
     n = 0
     try:
+        u.feed(chunk)
+        cap = (len(u.buf) // 5 + 3) if bound is None else bound
         for op, data in u:
             frames.append((op, bytes(data)))
             n += 1
@@ -221,6 +221,18 @@ def sec_roundtrip(res, drv, rng, tier, n):
                 mr = drv.ask('c.read %d %s' % (op, hexin(body)))
                 if mr != got:
                     res.disagree('read', script, got[:300], mr[:300])
+            # the same frame with more data already buffered behind it (pipelined / coalesced delivery),
+            # and cut at an arbitrary point: the decoded frame must not depend on what follows
+            if len(b) <= 70000:
+                follow = rng.choice([b'\x00', b'\x00\x00\x00\x09\x03abcd', b, b[:7], b'\xff' * 9])
+                u2 = P.Unpacker()
+                k = rng.randint(1, len(b))
+                fr2, rest2, err2 = impl_feed(u2, b[:k])
+                fr3, rest3, err3 = impl_feed(u2, b[k:] + follow) if err2 == 'none' else ([], 0, err2)
+                got2 = fr2 + fr3
+                if not got2 or got2[0] != (op, body):
+                    res.violation('C05', 'roundtrip-coalesced', 'frame decoded differently when followed by %d more buffered bytes (cut at %d): got %r' % (len(follow), k, got2[:1] and (got2[0][0], got2[0][1][-12:])), dict(script, follow=hexin(follow), cut=k))
+                res.note('roundtrip.coalesced')
             res.nontriv(['rt', m[0], [len(b_(x)) for x in m[1:]], hexf(b)[:64]])
             res.sample(script)
         else:
@@ -309,6 +321,20 @@ def sec_chunking(res, drv, rng, tier, n):
                 exhaustive += 1
             res.nontriv(['exh', [[op, b.hex()] for op, b in fs], tail.hex()])
     res.note('chunking.exhaustive-patterns', exhaustive)
+    # long streams (several MiB, several big frames per chunk, coarse chunks)
+    for k in range({'quick': 2, 'thorough': 10}[tier]):
+        fs = small_frames(rng)
+        for _ in range(rng.randint(2, 3)):
+            fs.append((3, b'\x01a\x01c' + bytes([rng.getrandbits(8)]) * rng.choice([600000, 900000, P.MAXBUF - 6])))
+            fs += small_frames(rng)
+        tail = rng.choice(tails)
+        stream = b''.join(enc(op, b) for op, b in fs) + tail
+        step = rng.choice([len(stream), 262144, 65536, 1048576 + 20000])
+        cuts = list(range(step, len(stream), step))
+        script = {'section': 'chunking', 'frames': [[op, hexin(b)] for op, b in fs], 'tail': hexin(tail), 'cuts': cuts, 'mode': 'long-%d' % step}
+        run_chunked(res, drv, fs, tail, cut(stream, cuts), script)
+        res.note('chunking.long-stream-bytes', len(stream))
+        res.nontriv(['long', len(fs), len(stream), step])
     # random
     for k in range(n):
         fs = small_frames(rng)
@@ -504,7 +530,7 @@ def replay(script, drv):
     """re-run one recorded script; returns a Result"""
     res = Result('codec')
     sec = script.get('section')
-    hx = lambda s: b'' if s == '-' else (bytes([int(s.split(':')[1], 16)]) * int(s[1:].split(':')[0]) if s.startswith('*') else bytes.fromhex(s))
+    from engines.broker import hx
     if sec in ('lattice', 'random-bytes'):
         run_arbitrary(res, drv, [hx(c) for c in script['chunks']], script)
     elif sec == 'chunking':
